@@ -276,6 +276,13 @@ func checkSecurityGeneratorState(c *core.Ctx) error {
 					seen[v] = true
 					switch x := v.(type) {
 					case *ssa.Phi:
+						// a loop counter (range over a slice): one edge is the phi itself plus a constant
+						for _, e := range x.Edges {
+							if bo, ok := e.(*ssa.BinOp); ok && bo.Op == token.ADD && bo.X == ssa.Value(x) {
+								bad = call.Pos()
+								return
+							}
+						}
 						for _, e := range x.Edges {
 							walk(e, d+1)
 						}
@@ -304,8 +311,19 @@ func checkSecurityGeneratorState(c *core.Ctx) error {
 						}
 					case *ssa.Convert:
 						walk(x.X, d+1)
-					case *ssa.BinOp, *ssa.Lookup, *ssa.Const:
-						// len(..)-1, indexes[name]
+					case *ssa.BinOp:
+						// the running index of a range over a slice is phi+1 with the phi fed by this very value
+						if phi, ok := x.X.(*ssa.Phi); ok && x.Op == token.ADD {
+							for _, e := range phi.Edges {
+								if e == ssa.Value(x) {
+									bad = call.Pos()
+									return
+								}
+							}
+						}
+						// otherwise len(..)-1
+					case *ssa.Lookup, *ssa.Const:
+						// indexes[name]
 					}
 				}
 				walk(idx, 0)
@@ -1141,13 +1159,35 @@ func checkRequirementSkip(c *core.Ctx, r *core.Rule, prog *core.Prog) {
 					}
 				}
 				// and inside the closure a failed scheme returns a non-nil error
+				// — on every path: from the failure edge no path returns nil or goes round the scheme loop again
 				retErr := false
 				for _, ev := range core.ErrValueOf(cl) {
 					for _, fb := range failureBlocks(ev) {
-						for _, b := range f.Blocks {
-							if ret, isRet := b.Instrs[len(b.Instrs)-1].(*ssa.Return); isRet && fb.Dominates(b) && !core.IsNilConst(ret.Results[len(ret.Results)-1]) {
-								retErr = true
+						allErr, any := true, false
+						seen := map[*ssa.BasicBlock]bool{}
+						stack := []*ssa.BasicBlock{fb}
+						for len(stack) > 0 {
+							b := stack[len(stack)-1]
+							stack = stack[:len(stack)-1]
+							if seen[b] {
+								continue
 							}
+							seen[b] = true
+							if b == cl.Block() || (b.Dominates(cl.Block()) && b != fb) {
+								allErr = false // back into the loop over schemes: the failed scheme was dropped, the rest kept
+								continue
+							}
+							if ret, isRet := b.Instrs[len(b.Instrs)-1].(*ssa.Return); isRet {
+								any = true
+								if core.IsNilConst(ret.Results[len(ret.Results)-1]) {
+									allErr = false
+								}
+								continue
+							}
+							stack = append(stack, b.Succs...)
+						}
+						if allErr && any {
+							retErr = true
 						}
 					}
 				}
